@@ -4,7 +4,9 @@ import (
 	"fmt"
 	"go/ast"
 	"go/constant"
+	"go/token"
 	"go/types"
+	"log/slog"
 	"sort"
 	"strings"
 	"unicode"
@@ -83,6 +85,7 @@ func runC01(p *core.Prog, r *core.Report) {
 	r.Rule("C01-R3", "escape table: evaluated over all 128 ASCII bytes and every Unicode scalar value, a character is passed through raw only if JSON allows it inside a string, and otherwise is replaced by exactly one legal escape denoting it (invalid UTF-8 → \\ufffd)", 3)
 	r.Rule("C01-R4", "error containment: every path of the marshal helper appends something (an encoding error is rendered as an escaped string, the value position never stays empty)", 1)
 	r.Rule("C01-R5", "source location: a function that captures the caller with runtime.Callers(2+d, …) is reached through exactly d frames of the package — d-1 private levels nobody outside can enter, then entry points that are not themselves called from inside the logger package (fixed stack depth)", 1)
+	r.Rule("C01-R7", "no attribute is dropped: in an emitter that is handed one slog.Attr, a return with nothing appended is reachable only inside the group branch (Kind() == KindGroup) — an empty group is the only attribute that leaves the line untouched", 1)
 	r.Rule("C01-R6", "the caller's attributes are read-only: no function of the logger package stores through a pointer parameter to slog.Attr / slog.Value / slog.Record or into an element of a []slog.Attr it was given or obtained from Value.Group() (resolving a LogValuer in place would freeze a deferred value for every later record)", 0)
 	r.NotDecided = append(r.NotDecided, "that decoded values equal the inputs (round-trip of numbers/time through strconv/time; U+FFFD substitution result)", "attribute order beyond: emitted in iteration order of the same loops")
 	r.Trusted = append(r.Trusted, "strconv.AppendInt/Uint/Bool output is a JSON number/literal", "Time.AppendFormat(RFC3339Nano) emits only digits, '-', ':', '.', 'T', 'Z', '+'", "encoding/json Encoder.Encode writes one valid JSON value followed by '\\n'", "slog.Value.Resolve never returns a LogValuer kind")
@@ -298,6 +301,48 @@ func runC01(p *core.Prog, r *core.Report) {
 	r.Check(len(badR) == 0, "C01-R3", "escape decision over every Unicode scalar value and invalid bytes", p.FuncPos(san), fmt.Sprintf("%d scalar values evaluated: raw or one legal \\uXXXX escape denoting them; invalid bytes become \\ufffd", nR), strings.Join(badR, "; "))
 
 	// ---- R4
+	// "writes": an append to the line, or a call of an emitter (a function that receives the line buffer) which itself
+	// writes on every path
+	var alwaysWrites func(f *ssa.Function, depth int) (sx.Cut, bool)
+	alwaysWrites = func(f *ssa.Function, depth int) (sx.Cut, bool) {
+		c := sx.Cut{Instrs: map[ssa.Instruction]bool{}}
+		for _, s := range sinks {
+			if s.Fn == f {
+				c.Instrs[s.In] = true
+			}
+		}
+		if depth < 3 {
+			sx.Instrs(f, func(in ssa.Instruction) {
+				call, ok := in.(*ssa.Call)
+				if !ok {
+					return
+				}
+				callee := sx.StaticCallee(call)
+				if callee == nil || bufs[callee] == nil || callee == f {
+					return
+				}
+				passes := false
+				for _, a := range sx.Args(call) {
+					if bufs[f][a] || bufs[f][sx.Unspill(a)] {
+						passes = true
+					}
+				}
+				if !passes {
+					return
+				}
+				if _, all := alwaysWrites(callee, depth+1); all {
+					c.Instrs[in] = true
+				}
+			})
+		}
+		all := len(c.Instrs) > 0
+		for _, ret := range sx.Returns(f) {
+			if sx.ReachInstr(f, nil, ret, c) {
+				all = false
+			}
+		}
+		return c, all
+	}
 	for fn := range bufs {
 		uses := false
 		sx.Instrs(fn, func(in ssa.Instruction) {
@@ -308,50 +353,88 @@ func runC01(p *core.Prog, r *core.Report) {
 		if !uses {
 			continue
 		}
-		// "writes": an append to the line, or a call of an emitter (a function that receives the line buffer) which itself
-		// writes on every path
-		var alwaysWrites func(f *ssa.Function, depth int) (sx.Cut, bool)
-		alwaysWrites = func(f *ssa.Function, depth int) (sx.Cut, bool) {
-			c := sx.Cut{Instrs: map[ssa.Instruction]bool{}}
-			for _, s := range sinks {
-				if s.Fn == f {
-					c.Instrs[s.In] = true
-				}
-			}
-			if depth < 3 {
-				sx.Instrs(f, func(in ssa.Instruction) {
-					call, ok := in.(*ssa.Call)
-					if !ok {
-						return
-					}
-					callee := sx.StaticCallee(call)
-					if callee == nil || bufs[callee] == nil || callee == f {
-						return
-					}
-					passes := false
-					for _, a := range sx.Args(call) {
-						if bufs[f][a] || bufs[f][sx.Unspill(a)] {
-							passes = true
-						}
-					}
-					if !passes {
-						return
-					}
-					if _, all := alwaysWrites(callee, depth+1); all {
-						c.Instrs[in] = true
-					}
-				})
-			}
-			all := len(c.Instrs) > 0
-			for _, ret := range sx.Returns(f) {
-				if sx.ReachInstr(f, nil, ret, c) {
-					all = false
-				}
-			}
-			return c, all
-		}
 		_, ok := alwaysWrites(fn, 0)
 		r.Check(ok, "C01-R4", fnName(fn)+": every path writes a value", p.FuncPos(fn), "no return without an append (error → escaped string)", "a path of the marshal helper returns without appending anything: `\"key\":` would be followed by ',' or '}'")
+	}
+
+	// ---- R7: no attribute is dropped. In an emitter that is handed one slog.Attr, a return that no append to the line
+	// precedes is reachable only through the group branch (`Kind() == KindGroup`): a group without members is the one
+	// attribute that leaves the line untouched; any other attribute — whatever its key and value — writes a member.
+	{
+		var attrFns []*ssa.Function
+		for fn := range bufs {
+			for _, prm := range fn.Params {
+				pt := prm.Type()
+				if ptr, ok := pt.(*types.Pointer); ok {
+					pt = ptr.Elem() // the Attr handed on by reference
+				}
+				if nt, ok := pt.(*types.Named); ok && nt.Obj().Pkg() != nil && nt.Obj().Pkg().Path() == "log/slog" && nt.Obj().Name() == "Attr" {
+					attrFns = append(attrFns, fn)
+					break
+				}
+			}
+		}
+		sort.Slice(attrFns, func(i, j int) bool { return attrFns[i].String() < attrFns[j].String() })
+		for _, fn := range attrFns {
+			cut := sx.Cut{Instrs: map[ssa.Instruction]bool{}, Edges: map[sx.Edge]bool{}}
+			for _, sk := range sinks {
+				if sk.Fn == fn && !sk.ColourOnly {
+					cut.Instrs[sk.In] = true
+				}
+			}
+			// a call of an emitter that writes on every one of its paths (the key, the value) is a write
+			if c2, _ := alwaysWrites(fn, 0); true {
+				for in := range c2.Instrs {
+					cut.Instrs[in] = true
+				}
+			}
+			// handing the attribute on to another attribute emitter delegates the decision to it (it is judged itself)
+			sx.Instrs(fn, func(in ssa.Instruction) {
+				if call, ok := in.(*ssa.Call); ok {
+					if callee := sx.StaticCallee(call); callee != nil && callee != fn {
+						for _, af := range attrFns {
+							if af == callee {
+								cut.Instrs[in] = true
+							}
+						}
+					}
+				}
+			})
+			isKindCall := func(v ssa.Value) bool {
+				c, ok := sx.Unspill(v).(*ssa.Call)
+				return ok && sx.CalleeName(c) == "(log/slog.Value).Kind"
+			}
+			isGroupConst := func(v ssa.Value) bool {
+				k, ok := sx.ConstInt(v)
+				return ok && k == int64(slog.KindGroup)
+			}
+			nGroupEdges := 0
+			sx.Instrs(fn, func(in ssa.Instruction) {
+				iff, ok := in.(*ssa.If)
+				if !ok {
+					return
+				}
+				b, ok := iff.Cond.(*ssa.BinOp)
+				if !ok || !((isKindCall(b.X) && isGroupConst(b.Y)) || (isKindCall(b.Y) && isGroupConst(b.X))) {
+					return
+				}
+				switch b.Op {
+				case token.EQL:
+					cut.Edges[sx.Edge{From: iff.Block(), Idx: 0}] = true
+					nGroupEdges++
+				case token.NEQ:
+					cut.Edges[sx.Edge{From: iff.Block(), Idx: 1}] = true
+					nGroupEdges++
+				}
+			})
+			var bad []string
+			for _, ret := range sx.Returns(fn) {
+				if sx.ReachInstr(fn, nil, ret, cut) {
+					bad = append(bad, p.Pos(ret.Pos()))
+				}
+			}
+			r.Check(len(bad) == 0, "C01-R7", fnName(fn)+": only a group can leave the line untouched", p.FuncPos(fn), fmt.Sprintf("every return is behind an append to the line or inside the group branch (%d group test(s))", nGroupEdges), "the return at "+strings.Join(bad, ", ")+" is reachable for an attribute that is not a group without anything having been appended: that attribute is missing from the decoded object")
+		}
 	}
 
 	checkCallerFrames(p, r, "C01-R5")
